@@ -26,12 +26,14 @@ SLOT = "\x01"
 # the following edge, the next template and the system section: a corrupted frame stack shows as a changed binding
 GDECL = "const int k = 1; int g; int h[2]; clock x; chan c[4]; int fn(int a) { return a + k; }"
 LABELS = {  # kind -> (xpath of the faulted label, slots of the model, base texts)
-    "guard": ["k >= 0 && g == fn(k)", "forall (z : int[0,1]) h[z] >= k", "g > (k > 0 ? 1 : 2)"],
-    "invariant": ["x <= k + 5", "x <= 10 && g >= k", "forall (z : int[0,1]) h[z] >= k && x <= 9"],
+    "guard": ["k >= 0 && g == fn(k)", "forall (z : int[0,1]) h[z] >= k", "g > (k > 0 ? 1 : 2)",
+              "forall (g : int[0,1]) h[g] >= k && exists (k : int[0,1]) h[k] == 1"],   # binders named like names the later labels use
+    "invariant": ["x <= k + 5", "x <= 10 && g >= k", "forall (z : int[0,1]) h[z] >= k && x <= 9",
+                  "forall (k : int[0,1]) forall (g : int[0,1]) h[k] >= g && x <= 9"],
     "synchronisation": ["c[k]!", "c[fn(k)]?"],
     "assignment": ["g = k, h[k] = fn(g)", "g = (k > 0 ? k : g), h[0] = 0"],
     "probability": ["k + 1", "fn(k)"],
-    "exponentialrate": ["k + 1", "2 * fn(k)", "1 + (sum (z : int[0,1]) h[z])"],
+    "exponentialrate": ["k + 1", "2 * fn(k)", "1 + (sum (z : int[0,1]) h[z])", "1 + (sum (k : int[0,1]) h[k] + (sum (g : int[0,1]) g))"],
 }
 
 
